@@ -10,8 +10,6 @@
 package c06
 
 import (
-	"os"
-
 	"pgregory.net/rapid"
 	ck "verifharness/chainkit"
 	"verifharness/vt"
@@ -115,10 +113,6 @@ func genCase(sweep bool) func(t *rapid.T) Case {
 
 func init() {
 	vt.PropertyID = "C06"
-	// VERIF_C06_KNOWN (testing aid): comma separated finding keys treated as listed in known_findings.json.
-	for _, k := range splitComma(os.Getenv("VERIF_C06_KNOWN")) {
-		forcedKnown[k] = true
-	}
 	vt.Register("single", 1.0, genCase(false), checkCase)
 	vt.Register("sweep", 0.02, genCase(true), checkCase)
 }
